@@ -326,6 +326,20 @@ def run(repo: Repo, rep: Report, tier: str) -> None:
         m_ = re.fullmatch(r"items\[(.+) \+ 1\]", cri.text(s_.value))
         ok_step = ok_step and m_ is not None and any(pol and f"items[{m_.group(1)}].type == 'STEP_KW'" in g for g, pol in cguards(ri, s_))
     rep.check(ok_step, "C16-R5", "range_iterator: step is the bound following STEP_KW", "; ".join(step_alts)[:120], ri.loc(step_src[0]) if step_src else ri.loc())
+    # a bound is a number or a name (range_bound returns int | str): the step is taken whichever it is
+    rb = tr.methods["range_bound"]
+    kinds = set()
+    for r_ in [n for n in walk_local(rb.node) if isinstance(n, ast.Return) and n.value is not None]:
+        t_ = norm(r_.value)
+        kinds.add("str" if t_.startswith("str(") else "int" if "_parse_number(" in t_ else next((g.split(", ")[-1].rstrip(")") for g, pol in cguards(rb, r_) if pol and g.startswith("isinstance(") and g.split(", ")[-1].rstrip(")") in ("int", "str")), "?"))
+    for s_ in step_src:
+        for g, pol in cguards(ri, s_):
+            for m_ in re.finditer(r"isinstance\(items\[[^\]]+ \+ 1\], (\([^)]*\)|\w+)\)", g):
+                got = set(re.findall(r"\w+", m_.group(1)))
+                okk = pol and {"int", "str"} <= got
+                rep.check(okk, "C16-R5", "range_iterator: the step is taken whether it is a number or a name", f"accepts {sorted(got)}" if okk else
+                          f"the step is read only when it is {sorted(got)}{'' if pol else ' (negated)'}; range_bound yields {sorted(kinds)}: `step k` with an int variable silently becomes step 1", ri.loc(s_))
+    rep.check({"int", "str"} <= kinds, "C16-R5", "range_bound yields a number or a name", str(sorted(kinds)), rb.loc())
     li = tr.methods["list_iterator"]
     ok_li = any(isinstance(n, ast.For) and norm(n.iter) == "items" for n in walk_local(li.node)) and any(call_name(c) == "append" for c in calls_in(li.node)) and not any(call_name(c) in ("sorted", "reversed", "sort", "reverse", "set") for c in calls_in(li.node))
     rep.check(ok_li, "C16-R5", "list_iterator keeps the listed values in source order", "appends in item order" if ok_li else "values are reordered or deduplicated", li.loc())
